@@ -1,4 +1,4 @@
-\* W=3, a chain with one side branch from any block (<= 10 blocks), every vote pattern.
+\* W=3, a chain with one side branch from any block (<= 9 blocks), every vote pattern.
 SPECIFICATION Spec
 CONSTANTS
   W = 3
@@ -10,7 +10,7 @@ CONSTANTS
   MinHs = {0}
   Alwayss = {0}
   Implicit = {}
-  MaxBlocks = 10
+  MaxBlocks = 9
   MaxHeight = 9
   MaxLeaves = 2
   MaxTime = 14
